@@ -731,7 +731,9 @@ func (cs *ConsensusState) handleMsg(mi msgInfo, rs RoundState) {
 		err = cs.setProposal(msg.Proposal)
 	case *BlockPartMessage:
 		// if the proposal is complete, we'll enterPrevote or tryFinalizeCommit
-		_, err = cs.addProposalBlockPart(msg.Height, msg.Part, peerKey != "")
+		// own parts are verified too: a late own part must not enter the part set of another
+		// block (e.g. the block that was committed meanwhile)
+		_, err = cs.addProposalBlockPart(msg.Height, msg.Part, true)
 		if err != nil && msg.Round != cs.Round {
 			err = nil
 		}
